@@ -103,6 +103,7 @@ func (s *Sim) access(p unsafe.Pointer, write bool, site string) {
 	if t == nil {
 		return
 	}
+	t.lastInit = s.seq
 	if !write {
 		t.lastRead = p
 	}
@@ -245,6 +246,7 @@ func (s *Sim) elementAccess(p unsafe.Pointer, write bool, site string) {
 	if t == nil {
 		return
 	}
+	t.lastInit = s.seq
 	sh := s.elems[p]
 	if sh == nil {
 		// shadow cells for elements come from a slab: there are many of them
